@@ -92,8 +92,28 @@ def group3(ip, tsep):
     return tsep.join(out)
 
 
+def display_alternatives(ax):
+    """other digit strings of the same length as the shortest round-trip rendering that also read back as ax: when the
+    value lies exactly half-way between two shortest candidates the choice between them is not fixed by "shortest
+    round-trip" (python picks the even digit, Rust's Grisu/Dragon the upper one); both are correctly rounded renderings"""
+    s = display_str(ax)
+    if "." not in s:
+        return []
+    out = []
+    head, last = s[:-1], int(s[-1])
+    for d in (last - 1, last + 1):
+        if 0 <= d <= 9:
+            alt = head + str(d)
+            if float(alt) == ax:
+                out.append(alt)
+    return out
+
+
+ALT = {"st": None}
+
+
 def spec_number(x, n, rm, rnd, dsep, tsep):
-    st = fixed_str(abs(x), n) if rnd else display_str(abs(x))
+    st = fixed_str(abs(x), n) if rnd else (ALT["st"] or display_str(abs(x)))
     ip, dot, fp = st.partition(".")
     out = ("-" if x < 0 else "") + group3(ip, tsep)
     if dot and not (rm and set(fp) <= {"0"}):
@@ -303,6 +323,15 @@ def failures(c, rec):
         if kind != "item" or str(v.get("v")) != str(it["bits"]):
             out.append((i, "line %d: the value %r was not injected exactly: %r" % (i, x, l)))
             continue
+        if l["out"] != exp and not rnd:
+            # rounding off = shortest round-trip digits: accept the other candidate of an exact tie
+            for alt in display_alternatives(abs(x)):
+                ALT["st"] = alt
+                try:
+                    if l["out"] == expected(it, cfg)[0]:
+                        exp = l["out"]
+                finally:
+                    ALT["st"] = None
         if l["out"] != exp:
             out.append((i, "line %d: %s %r (binary64 %s) with %d digits, rounding %s: expected %r, printed %r"
                         % (i, it["k"], x, Decimal(x) if abs(x) < 1e30 else repr(x), n, "on" if rnd else "off", exp, l["out"])))
